@@ -166,6 +166,9 @@ def run(out, tier):
                 if lab not in b["starts"]:
                     hc.decide(out, "C14", findings, h, "the output check of %s fails but its cached result is served without executing it" % lab,
                               predicted, GUARDS)
+    # the timeout also binds a dependency that is re-made inside its dependant's task (load_outputs=minimal, blob lost)
+    import c15
+    evals += c15.witness_rerun_timeout(out)
     # model: timeouts are not modelled; drop that history from the correspondence
     batch2 = [x for x in batch if x[0] != "timeout"]
     hc.finish(out, "C14", batch2,
